@@ -155,7 +155,7 @@ def catalogue(tier, rng):
         if r['preferenceFunction'] == 'aspectEliminationHeuristic':
             mp['function'] = rng.choice(['idealAdditiveCoefficient', 'idealMultipliedCoefficient'])
             mp['params'] = {'coefficient': PU // 2, 'minValue': 0, 'maxValue': PU}
-            best = {c['id']: ((c['valuesRange']['max'] if 'valuesRange' in c else PU * 8) if c['type'] == 'gain'
+            best = {c['id']: ((c['valuesRange']['max'] if 'valuesRange' in c else PU * 8) if c.get('type', 'gain') == 'gain'
                               else (c['valuesRange']['min'] if 'valuesRange' in c else -PU * 3)) for c in r['criteria']}
             r['knownAlternatives'][0]['criteria'] = dict(best)
             r['knownAlternatives'][1]['criteria'] = dict(best)
